@@ -51,6 +51,8 @@ where
     T: FileReader,
 {
     lexer_stack: Vec<Peekable<Lexer>>,
+    /// Names of the files that are currently being read (parallel to `lexer_stack`)
+    file_stack: Vec<String>,
     pub reader: T,
 }
 
@@ -94,6 +96,7 @@ impl<T: FileReader> RVParser<T> {
     pub fn new(reader: T) -> RVParser<T> {
         RVParser {
             lexer_stack: Vec::new(),
+            file_stack: Vec::new(),
             reader,
         }
     }
@@ -133,6 +136,7 @@ impl<T: FileReader> RVParser<T> {
             }
         };
         let first_uuid = lexer.source_id;
+        self.file_stack.push(self.name_of_file(first_uuid));
         self.lexer_stack.push(lexer.peekable());
 
         // Add program entry node
@@ -150,8 +154,19 @@ impl<T: FileReader> RVParser<T> {
                         if let Some(path) = x.get_include_path() {
                             match self.reader.import_file(path.get(), Some(path.file())) {
                                 Ok((new_uuid, new_text)) => {
-                                    self.lexer_stack
-                                        .push(Lexer::new(new_text, new_uuid).peekable());
+                                    // A file that is still being read must not be read
+                                    // again: it would include itself forever (not every
+                                    // reader refuses to deliver a file twice)
+                                    let name = self.name_of_file(new_uuid);
+                                    if self.file_stack.contains(&name) {
+                                        parse_errors.push(ParseError::CyclicDependency(Box::new(
+                                            path.token().clone(),
+                                        )));
+                                    } else {
+                                        self.file_stack.push(name);
+                                        self.lexer_stack
+                                            .push(Lexer::new(new_text, new_uuid).peekable());
+                                    }
                                 }
                                 Err(error) => {
                                     parse_errors.push(error.to_parse_error(path.clone()));
@@ -179,6 +194,7 @@ impl<T: FileReader> RVParser<T> {
                     }
                     LexError::UnexpectedEOF => {
                         self.lexer_stack.pop();
+                        self.file_stack.pop();
                     }
                     LexError::NeedTwoNodes(n1, n2) => {
                         nodes.push(*n1);
@@ -205,6 +221,13 @@ impl<T: FileReader> RVParser<T> {
             }
         }
         (nodes, parse_errors)
+    }
+
+    /// The name under which the reader knows a file (its id if it has no name).
+    fn name_of_file(&self, uuid: Uuid) -> String {
+        self.reader
+            .get_filename(uuid)
+            .unwrap_or_else(|| uuid.to_string())
     }
 
     fn lexer(&mut self) -> Option<&mut Peekable<Lexer>> {
